@@ -7,7 +7,13 @@ from ..nf import Rat, C
 from ..source import Unsupported, AnchorError
 from ..xlate import Interp, Obj, ListV, DictV, Raised
 from .common import same, show
-from .rxnfix import species as opaque_species
+from .rxnfix import species as opaque_species, get_public
+
+
+def side_of(rxn, attr):
+    """a side of a model reaction as the public property returns it"""
+    return get_public(rxn._interp, rxn, attr)
+
 
 CK = 'pmutt.io.chemkin'
 Z = '\x00'
@@ -71,6 +77,7 @@ class World:
         o = I.construct(ci, [], kw, name=name)
         if isinstance(o, Raised):
             raise Unsupported('ChemkinReaction(...) raised %s for the model reaction %s' % (o.exc, name))
+        o._interp = I
         self.reactions.append(o)
         return o
 
@@ -127,12 +134,12 @@ def check_reaction_lines(run, w, lines, expected_rxns, label, writer, m, kw, act
         fs = fields_of(rec['line'])
         nums = [f for f in fs if f.cls == 'num' and isinstance(f.value, Rat)]
         names = [f.value for f in fs if f.cls != 'num']
-        want_names = [sp.attrs['name'] for sp in rxn.attrs['_reactants'].items + rxn.attrs['_products'].items]
+        want_names = [sp.attrs['name'] for sp in side_of(rxn, 'reactants').items + side_of(rxn, 'products').items]
         run.check(names == want_names, 'DATAFLOW.equation', 'chemkin.' + writer, label + ' equation',
                   '[%s] the equation of %s lists species %s, expected %s' % (label, rxn.name, names, want_names), m, fn)
         kwm = dict(kw)
         undefined = False
-        if not rxn.attrs['is_adsorption'] and rxn.attrs['_transition_state'] is None and act_method in (
+        if not rxn.attrs['is_adsorption'] and side_of(rxn, 'transition_state') is None and act_method in (
                 'get_E_act', 'get_EoRT_act'):
             # the model does not define this activation quantity without a transition state: written as 0
             undefined = True
@@ -208,7 +215,7 @@ def mechanism(run, repo, two_sites):
         got = [I.plain(x) for x in sec.get('SPECIES', [])]
         run.check(got == gas, 'DATAFLOW.once', 'chemkin.write_gas', tag + ' gas species',
                   '[%s] SPECIES lists %s, expected the gas species once each: %s' % (label, got, gas), m, fn)
-        gas_rx = [r for r in w.reactions if all(sp.attrs['phase'].upper() == 'G' for sp in r.attrs['_reactants'].items)]
+        gas_rx = [r for r in w.reactions if all(sp.attrs['phase'].upper() == 'G' for sp in side_of(r, 'reactants').items)]
         check_reaction_lines(run, w, sec.get('REACTIONS', []), gas_rx, label, 'write_gas', m, {'T': T, 'P': P}, act,
                              None, 'kcal/mol')
         if act == 'get_G_act':
@@ -231,7 +238,7 @@ def mechanism(run, repo, two_sites):
                 continue
             sec, clean = sections(out, I)
             surf_rx = [r for r in w.reactions
-                       if not all(sp.attrs['phase'].upper() == 'G' for sp in r.attrs['_reactants'].items)]
+                       if not all(sp.attrs['phase'].upper() == 'G' for sp in side_of(r, 'reactants').items)]
             check_reaction_lines(run, w, sec.get('REACTIONS', []), surf_rx, label, 'write_surf', m,
                                  {'T': T, 'P': P, 'sden_operation': op}, act, ads, 'kcal/mol')
             if act == 'get_G_act' and op == 'min':
@@ -255,7 +262,7 @@ def mechanism(run, repo, two_sites):
             # adsorbates: every non-gas, non-bulk species of the reactions once, under its site, with its occupancy
             used = {}
             for r in w.reactions:
-                for sp in r.attrs['_reactants'].items + r.attrs['_products'].items:
+                for sp in side_of(r, 'reactants').items + side_of(r, 'products').items:
                     used[sp.name] = sp
             want_ads = [sp for sp in used.values() if sp.attrs['phase'].upper() != 'G'
                         and sp.attrs['name'] != sp.attrs['cat_site'].attrs['bulk_specie']]
@@ -288,11 +295,11 @@ def mechanism(run, repo, two_sites):
               tag, 'gas_phase is not a definite boolean', ck_owner.module, ck_init)
     # a reaction whose reactants are all gaseous (whatever the case of the phase label) belongs to the gas file
     for r in both:
-        allgas = all(sp.attrs['phase'].upper() == 'G' for sp in r.attrs['_reactants'].items)
+        allgas = all(sp.attrs['phase'].upper() == 'G' for sp in side_of(r, 'reactants').items)
         run.check(r.attrs['gas_phase'] == allgas, 'SIB.phase-case', 'ChemkinReaction.gas_phase', 'phase label case',
                   'reaction %s has only gaseous reactants (phase labels %s) but gas_phase=%s: the species is listed as a '
                   'gas species by write_gas (case-insensitive test) while its reaction is filed as a surface reaction '
-                  '(case-sensitive test)' % (r.name, [sp.attrs['phase'] for sp in r.attrs['_reactants'].items],
+                  '(case-sensitive test)' % (r.name, [sp.attrs['phase'] for sp in side_of(r, 'reactants').items],
                                              r.attrs['gas_phase']),
                   ck_owner.module, ck_init)
     return w
@@ -366,15 +373,15 @@ def read_back(run, repo, w, which, kwargs, expected, label, policy):
         return nm == want_n and st is not None and len(st) == len(coeffs.items) and \
             all(isinstance(a, Rat) and a.eq(b) for a, b in zip(st, coeffs.items)), nm, want_n
     for i, rxn in enumerate(expected):
-        okr, nm, want = side(reac.items[i], rst.items[i], rxn.attrs['_reactants'], rxn.attrs['_reactants_stoich'])
+        okr, nm, want = side(reac.items[i], rst.items[i], side_of(rxn, 'reactants'), side_of(rxn, 'reactants_stoich'))
         run.check(okr, 'TABLE.readback', 'chemkin.read_reactions', 'reactants',
                   '[%s] reaction %s is read back with reactants %s x %s, the model has %s x %s'
-                  % (label, rxn.name, nm, show(rst.items[i], 60), want, show(rxn.attrs['_reactants_stoich'], 60)), m, rfn,
+                  % (label, rxn.name, nm, show(rst.items[i], 60), want, show(side_of(rxn, 'reactants_stoich'), 60)), m, rfn,
                   sample='[%s] %s: reactants and coefficients read back' % (label, rxn.name) if i == 0 else None)
-        okp, nm, want = side(prod.items[i], pst.items[i], rxn.attrs['_products'], rxn.attrs['_products_stoich'])
+        okp, nm, want = side(prod.items[i], pst.items[i], side_of(rxn, 'products'), side_of(rxn, 'products_stoich'))
         run.check(okp, 'TABLE.readback', 'chemkin.read_reactions', 'products',
                   '[%s] reaction %s is read back with products %s x %s, the model has %s x %s'
-                  % (label, rxn.name, nm, show(pst.items[i], 60), want, show(rxn.attrs['_products_stoich'], 60)), m, rfn)
+                  % (label, rxn.name, nm, show(pst.items[i], 60), want, show(side_of(rxn, 'products_stoich'), 60)), m, rfn)
         want_eq = I.call_method(rxn, 'to_string', [], {'species_delimiter': '+', 'reaction_delimiter': '=',
                                                        'include_TS': False})
         run.check(show(I.seg(eqs.items[i]), 400) == show(I.seg(want_eq), 400), 'TABLE.readback',
@@ -425,7 +432,7 @@ def ea_files(run, repo, w):
             for ln, r in zip(rx_lines, want):
                 nums = [f for f in fields_of(ln) if f.cls == 'num']
                 meth_ = ads if r.attrs['is_adsorption'] else act
-                if r.attrs['_transition_state'] is None and meth_ in ('get_EoRT_act', 'get_E_act'):
+                if side_of(r, 'transition_state') is None and meth_ in ('get_EoRT_act', 'get_E_act'):
                     lit = ''.join(s_.text for s_ in ln.segs if s_.kind == 'lit')
                     run.check(not nums and lit.count('0.00E+00') == len(conds), 'DATAFLOW.EA', 'chemkin.write_EA',
                               'value per condition', '[%s] %s has no transition state: one 0 per run expected' %
